@@ -269,7 +269,7 @@ def sweep(run, gen, focus, thorough, crate=None):
         if key in lit:
             stats["pairs_compared"] += 1
             lw = lit[key]
-            if lw != rw and focus in ("C03", "both"):
+            if lw != rw and (focus in ("C03", "both") or (focus == "C04" and lw is None)):
                 if lw is None:
                     what = f"{desc} assembles to {hex(rw)} although the literal spelling is rejected at compile time"
                     kind = "runtime-accepts-rejected-literal"
@@ -437,7 +437,8 @@ def sweep_rv(run, gen, focus, thorough):
         if lw == "dynamic":
             continue
         stats["pairs_compared"] += 1
-        if lw != rt[(ob["n"], v)] and focus == "C03":
+        # C03: the two spellings differ in any way; C04: an operand the literal spelling rejects is ACCEPTED at run time (masked into the field)
+        if lw != rt[(ob["n"], v)] and (focus == "C03" or (focus == "C04" and lw is None)):
             kind = "runtime-accepts-rejected-literal" if lw is None else "runtime-rejects-accepted-literal" if rt[(ob["n"], v)] is None else "runtime-differs-from-literal"
             run.violation("failing-input", {"kind": kind, "mnemonic": ob["mnemonic"], "commands": ob["lean_cmds"]},
                           f"{desc}: run-time spelling gives {b.hex() if st == 'ok' else 'panic (' + b[:60] + ')'}, the literal spelling {lw.hex() if lw is not None else 'is rejected'}", payload)
